@@ -235,6 +235,15 @@ def _run_unit(args):
         r = _WORK_FN(unit, tier)
         if os.environ.get('VERIF_PROF'):
             sys.stderr.write('PROF %.1fs %r\n' % (time.time() - _t0, unit))
+        # every violation remembers the unit it was found in: a violation that depends on what the unit did before
+        # (process-wide state left behind by earlier calls) is confirmed and replayed by re-running that unit
+        for v in r.violations.values():
+            if isinstance(v[1], dict) and '_unit' not in v[1]:
+                try:
+                    json.dumps(unit)
+                    v[1]['_unit'] = unit
+                except (TypeError, ValueError):
+                    pass
         if get_defaults() != BASE_DEFAULTS:
             pin_defaults()
         return idx, r, None
@@ -242,7 +251,7 @@ def _run_unit(args):
         return idx, None, traceback.format_exc()
 
 
-def run_units(work_fn, units, tier, jobs=None, progress=None, fresh_process_per_unit=False):
+def run_units(work_fn, units, tier, jobs=None, progress=None, fresh_process_per_unit=True):
     """Run work_fn(unit, tier) -> Result over all units on a fork pool; merge in unit order independent way."""
     global _WORK_FN
     _WORK_FN = work_fn
